@@ -945,6 +945,19 @@ Example request_unset_panics :
     (Resp (mkH 200 false "text/calendar" false "text/calendar" [] LNone true true true LGood LBad XSyn)) = CPanic.
 Proof. reflexivity. Qed.
 
+(** * DecodeProp with several values: every value is looked up *)
+
+Theorem decode_pair_ok r : c_is_ok (decode_pair r) = spec_pair_ok r.
+Proof.
+  unfold decode_pair, spec_pair_ok. destruct (resp_success r) eqn:H.
+  - cbn [andb]. use_prop H n_getetag dec_good; [|reflexivity].
+    use_prop H n_getlastmodified dec_good; reflexivity.
+  - destruct (decode_prop_failed_entry r n_getetag dec_good H) as (e & ->). reflexivity.
+Qed.
+
+Theorem decode_pair_no_panic r : decode_pair r <> CPanic.
+Proof. unfold decode_pair. np. Qed.
+
 (** the same with the known-finding selector as the visible hypothesis *)
 Lemma dp_dt s : decoder_panics s = false -> decoders_total s = true.
 Proof. unfold decoder_panics. apply negb_false_iff. Qed.
